@@ -199,6 +199,54 @@ where
     }
 }
 
+/// Whether `chunk` is a raw encoding `G1Affine::to_raw_bytes` can produce: an
+/// infinity flag of `0` or `1`, both coordinates with limbs below the base
+/// field modulus, and, for the point at infinity, exactly the encoding of
+/// `G1Affine::identity()`.
+fn raw_g1_is_canonical(chunk: &[u8]) -> bool {
+    // BLS12-381 base field modulus, little-endian 64-bit limbs.
+    const MODULUS: [u64; 6] = [
+        0xb9fe_ffff_ffff_aaab,
+        0x1eab_fffe_b153_ffff,
+        0x6730_d2a0_f6b0_f624,
+        0x6477_4b84_f385_12bf,
+        0x4b1b_a7b6_434b_acd7,
+        0x1a01_11ea_397f_e69a,
+    ];
+
+    if chunk.len() != G1Affine::RAW_SIZE {
+        return false;
+    }
+
+    let flag = chunk[G1Affine::RAW_SIZE - 1];
+    if flag > 1 {
+        return false;
+    }
+
+    let limb = |i: usize| {
+        let mut bytes = [0u8; 8];
+        bytes.copy_from_slice(&chunk[8 * i..8 * i + 8]);
+        u64::from_le_bytes(bytes)
+    };
+    let below_modulus = |offset: usize| {
+        for i in (0..6).rev() {
+            let l = limb(offset + i);
+            if l < MODULUS[i] {
+                return true;
+            }
+            if l > MODULUS[i] {
+                return false;
+            }
+        }
+        false
+    };
+    if !(below_modulus(0) && below_modulus(6)) {
+        return false;
+    }
+
+    flag == 0 || chunk == G1Affine::identity().to_raw_bytes()
+}
+
 impl CommitKey {
     /// Serialize the [`CommitKey`] into bytes.
     ///
@@ -284,6 +332,13 @@ impl CommitKey {
         let mut powers_of_g = Vec::with_capacity(len);
 
         for chunk in bytes[u64::SIZE..].chunks_exact(G1Affine::RAW_SIZE) {
+            // The unchecked constructor below takes the limbs and the
+            // infinity flag as they come: reject every chunk that is not the
+            // canonical raw encoding first.
+            if !raw_g1_is_canonical(chunk) {
+                return Err(Error::PointMalformed);
+            }
+
             // Safety: raw-byte chunk size is checked by `chunks_exact`.
             let point = unsafe { G1Affine::from_slice_unchecked(chunk) };
             let point_is_valid =
